@@ -33,6 +33,24 @@ def _init(ctx, rule):
     return f, ctx.fv(f)
 
 
+def _list_names(fv, f):
+    """(name of the instruction list, name of the achieved-concentration list) by their roles, not by spelling."""
+    selfn = f.params[0]
+    instr = None
+    for n in fv.cfg.nodes:
+        if n.kind == "stmt" and isinstance(n.ast, (ast.Assign, ast.AnnAssign)):
+            t = n.ast.targets[0] if isinstance(n.ast, ast.Assign) else n.ast.target
+            if attr_of_name(t, selfn, "instructions") and n.ast.value is not None:
+                root = fv.alias_root(n.ast.value, n.id)
+                instr = root.id if isinstance(root, ast.Name) else None
+    targets = None
+    for n in fv.cfg.nodes:
+        if n.kind == "test" and isinstance(n.ast, ast.Compare) and call_fname(n.ast.left) == "len" and n.ast.left.args and isinstance(n.ast.left.args[0], ast.Name) \
+                and isinstance(n.ast.ops[0], ast.Lt) and is_name(n.ast.comparators[0], "C"):
+            targets = n.ast.left.args[0].id
+    return instr, targets
+
+
 def no_partial(ctx) -> None:
     rule = "C14.no-partial"
     f, fv = _init(ctx, rule)
@@ -41,6 +59,8 @@ def no_partial(ctx) -> None:
         isinstance(t, ast.Attribute) and is_name(t.value, selfn) for t in (n.ast.targets if isinstance(n.ast, ast.Assign) else [n.ast.target]))]
     ctx.rep.floor(rule, "attribute stores of the plan", len(stores), 8)
     C = Poly.symbol(ast.Name(id="C", ctx=ast.Load()))
+    instr_name, targets_name = _list_names(fv, f)
+    planned_names = {x for x in (instr_name, targets_name) if x}
     bad = []
     for n in stores:
         ok = False
@@ -49,7 +69,7 @@ def no_partial(ctx) -> None:
                 cm = to_cmp(r, pol)
                 lhs = Poly.symbol(r.left)
                 listed = r.left.args[0]
-                planned = (is_sym(listed, "mut") and listed.args[0].value in ("actual_targets", "instructions")) or is_name(listed, "actual_targets") or is_name(listed, "instructions")
+                planned = (is_sym(listed, "mut") and listed.args[0].value in planned_names) or (isinstance(listed, ast.Name) and listed.id in planned_names)
                 if planned and cm is not None and (cm == Cmp(lhs - C, ">=") or cm == Cmp(lhs - C, "==")):
                     ok = True
         if not ok:
@@ -95,7 +115,8 @@ def no_partial(ctx) -> None:
 def instructions(ctx) -> None:
     rule = "C14.instructions"
     f, fv = _init(ctx, rule)
-    apps = [cs for cs in fv.calls() if isinstance(cs.call.func, ast.Attribute) and cs.call.func.attr == "append" and is_name(cs.call.func.value, "instructions")]
+    instr_name, targets_name = _list_names(fv, f)
+    apps = [cs for cs in fv.calls() if isinstance(cs.call.func, ast.Attribute) and cs.call.func.attr == "append" and is_name(cs.call.func.value, instr_name)]
     ctx.rep.floor(rule, "appends to the instruction list", len(apps), 2)
     MT = Poly.symbol(ast.Name(id="min_transfer", ctx=ast.Load()))
     for cs in apps:
@@ -120,7 +141,7 @@ def instructions(ctx) -> None:
                     ok_min = True
         ctx.rep.check(ok_min, "C14.min-transfer", c + "/min", "the appended volumes satisfy all(v >= min_transfer)", f"the {kind} instruction is appended without all(<these volumes> >= min_transfer) being established", where=w)
         # the achieved concentrations grow together with the instructions
-        blk = [x for x in fv.calls() if isinstance(x.call.func, ast.Attribute) and x.call.func.attr == "append" and is_name(x.call.func.value, "actual_targets")
+        blk = [x for x in fv.calls() if isinstance(x.call.func, ast.Attribute) and x.call.func.attr == "append" and is_name(x.call.func.value, targets_name)
                and set(fv.controlling(x.node)) == set(fv.controlling(cs.node)) and fv.cfg.enclosing_loops(x.node) == fv.cfg.enclosing_loops(cs.node)]
         ctx.rep.check(len(blk) == 1, "C14.earlier-source", c + "/parallel-lists", "instructions and actual_targets grow together", "the instruction is appended without its achieved concentrations (or vice versa): later lookups by column index are misaligned", where=w)
         if kind == "serial":
@@ -132,7 +153,7 @@ def instructions(ctx) -> None:
                 if isinstance(it, ast.Call) and call_fname(it) == "range" and it.args:
                     hi = it.args[-1]
                     lo = it.args[0] if len(it.args) > 1 else ast.Constant(value=0)
-                    ok_src = isinstance(lo, ast.Constant) and lo.value == 0 and call_fname(hi) == "len" and hi.args and (is_name(strip_norm(hi.args[0]), "instructions") or (is_sym(hi.args[0], "mut") and hi.args[0].args[0].value == "instructions"))
+                    ok_src = isinstance(lo, ast.Constant) and lo.value == 0 and call_fname(hi) == "len" and hi.args and (is_name(strip_norm(hi.args[0]), instr_name) or (is_sym(hi.args[0], "mut") and hi.args[0].args[0].value in (instr_name, targets_name)))
             ctx.rep.check(ok_src, "C14.earlier-source", c + "/source-range", "the source column ranges over the columns planned so far",
                           f"the source column `{show(src)[:60]}` does not range over range(0, len(instructions)): a column could be prepared from one that is not prepared yet", where=w)
             # budget: guard all(v <= remaining[src]) and update remaining[src] = remaining[src] - v
